@@ -550,6 +550,15 @@ func (k Keeper) GetStableMintVault(ctx sdk.Context, id uint64) (stableVault type
 	return stableVault, true
 }
 
+func (k Keeper) DeleteStableMintVault(ctx sdk.Context, id uint64) {
+	var (
+		store = k.Store(ctx)
+		key   = types.StableMintVaultKey(id)
+	)
+
+	store.Delete(key)
+}
+
 func (k Keeper) GetStableMintVaults(ctx sdk.Context) (stableVaults []types.StableMintVault) {
 	var (
 		store = k.Store(ctx)
